@@ -1,15 +1,20 @@
 #!/bin/bash
 # Build the framework offline from files on disk: regenerate Gen/*.lean from the repository, then
-# lake-build every property module and every driver executable.
+# lake-build the property module and driver of every check registered in MANIFEST.json.
+# A module that fails to build here is reported by its own check (as a broken obligation), not by setup.
 set -u
 cd "$(dirname "$0")"
 export VERIF_REPO="${VERIF_REPO:-/repo}"
 export PYTHONPATH="$VERIF_REPO:$(pwd)"
 export PYTHONDONTWRITEBYTECODE=1
 /venv/bin/python -m harness.genall || echo "setup: some translators failed (their checks will report it)"
+ids=$(/venv/bin/python -c "import json;print(' '.join(c['property_id'] for c in json.load(open('MANIFEST.json'))['checks']))")
 cd lean
 targets=""
-for f in AgVerif/Props/C*.lean; do [ -e "$f" ] && targets="$targets AgVerif.Props.$(basename "$f" .lean)"; done
-for f in Driver/C*.lean; do [ -e "$f" ] && targets="$targets drv_$(basename "$f" .lean)"; done
+for id in $ids; do
+  [ -e "AgVerif/Props/$id.lean" ] && targets="$targets AgVerif.Props.$id"
+  [ -e "Driver/$id.lean" ] && targets="$targets drv_$id"
+done
 echo "lake build$targets"
-exec flock .build.lock lake build $targets
+flock .build.lock lake build $targets || echo "setup: some targets failed to build (their checks will report it)"
+exit 0
